@@ -522,6 +522,42 @@ pub fn gen_schema(c: &mut Choices<'_>, cfg: &SchemaGenConfig) -> SchemaDoc {
     // specific base); if bases are unrelated fall back to the most specific ancestor's type.
     repair_inherited_edge_types(&mut types, &all_type_names);
 
+    // 3b. sometimes an object type's own property takes the name of an edge of an unrelated type: whether a field is a
+    // property or an edge is a fact about (type, field), not about the field name
+    if !cfg.hostile_names && c.chance(50) {
+        let edge_names: Vec<(usize, String)> = types
+            .iter()
+            .enumerate()
+            .flat_map(|(i, t)| t.fields.iter().filter(|f| all_type_names.contains(&f.ty.base)).map(move |f| (i, f.name.clone())))
+            .collect();
+        let objects: Vec<usize> = (0..types.len()).filter(|i| !types[*i].is_interface).collect();
+        if !edge_names.is_empty() && !objects.is_empty() {
+            let a = objects[c.below(objects.len())];
+            let (b, ename) = edge_names[c.below(edge_names.len())].clone();
+            let inherited: BTreeSet<String> = types
+                .iter()
+                .filter(|t| types[a].implements.contains(&t.name))
+                .flat_map(|t| t.fields.iter().map(|f| f.name.clone()))
+                .collect();
+            let related = a == b || types[a].implements.contains(&types[b].name);
+            let own_prop = types[a]
+                .fields
+                .iter()
+                .position(|f| !all_type_names.contains(&f.ty.base) && !inherited.contains(&f.name));
+            if let (false, Some(pi)) = (related || types[a].fields.iter().any(|f| f.name == ename), own_prop) {
+                // parameter semantics of edges elsewhere may refer to this property by name: keep those intact
+                let pname = types[a].fields[pi].name.clone();
+                let referenced = sem.values().any(|s| match s {
+                    ParamSem::FilterEq { prop, .. } | ParamSem::MinValue { prop, .. } | ParamSem::OneOfList { prop, .. } => *prop == pname,
+                    _ => false,
+                });
+                if !referenced {
+                    types[a].fields[pi].name = ename;
+                }
+            }
+        }
+    }
+
     // 4. root type
     let root = names.root_name();
     let n_entry = 1 + c.below(3);
